@@ -20,10 +20,11 @@ class Unsupported(Exception):
 
 
 class Num:
-    __slots__ = ("x", "data", "py", "isint")
+    __slots__ = ("x", "data", "py", "isint", "alias")
 
-    def __init__(s, x, data=False, py=False, isint=False):
+    def __init__(s, x, data=False, py=False, isint=False, alias=False):
         s.x, s.data, s.py, s.isint = x, data, py, isint
+        s.alias = alias      # may be the caller's own ndarray (function argument, or scalar(argument) which does not copy)
 
 
 class Bool:
@@ -169,6 +170,8 @@ class NumExec:
             return [(p, None)]
         if isinstance(n, ast.AugAssign):
             cur = s.ev(p, n.target)
+            if isinstance(cur, Num) and cur.data and cur.alias:
+                s.nonoblivious.append((n.lineno, f"in-place `{ast.unparse(n)}` on an array that may be the caller's own (scalar() does not copy)"))
             v = s.binop(n.op, cur, s.ev(p, n.value), n, p)
             s.assign(p, n.target, v)
             return [(p, None)]
@@ -377,7 +380,7 @@ class NumExec:
             name = f.id
             if name in ("scalar",):
                 v = s.num(s.ev(p, e.args[0]), e)
-                return Num(v.x, v.data, False, False)
+                return Num(v.x, v.data, False, False, alias=v.alias)
             if name in ("float",):
                 v = s.num(s.ev(p, e.args[0]), e)
                 if v.data:
@@ -442,6 +445,9 @@ class NumExec:
     def np_call(s, p, name, e):
         a = [s.ev(p, x) for x in e.args]
         kw = {k.arg: s.ev(p, k.value) for k in e.keywords}
+        allowed = {"where": set(), "full_like": {"fill_value"}, "nan_to_num": {"nan", "neginf", "posinf"}, "isclose": {"rtol", "atol", "equal_nan"}}
+        if set(kw) - allowed.get(name, set()):
+            raise Unsupported(f"np.{name} with keyword arguments {sorted(kw)} (e.g. out= writes into an existing array) at line {e.lineno}")
         N = lambda v: s.num(v, e)
         un = lambda fn, keepint=False: (lambda v: Num(fn(v.x), v.data, False, keepint and v.isint))(N(a[0]))
         if name == "where" and len(a) == 3:
